@@ -110,8 +110,22 @@ def x_sketch(report):
             raise Unrecognised("ComputeParameters", f"{f} default shape changed: {got[f]}")
         flags[f] = got[f]
 
-    # Python ComputeParameters.__init__ keyword defaults
-    cc = ast.parse(read("src/sourmash/command_compute.py"))
+    # command_sketch.py carries its own copies of ComputeParameters, _compute_individual, _compute_merged,
+    # add_seq and set_sig_name (the ones `sketch` runs); command_compute.py has the originals (`compute`).
+    # The model follows ONE text: fail closed if the copies differ.
+    cc_src = read("src/sourmash/command_compute.py")
+    dup = {}
+    for label, src in (("compute", cc_src), ("sketch", py)):
+        t = ast.parse(src)
+        dup[label] = {n.name: ast.get_source_segment(src, n) for n in t.body
+                      if isinstance(n, (ast.FunctionDef, ast.ClassDef))}
+    for name in ("ComputeParameters", "_compute_individual", "_compute_merged", "add_seq", "set_sig_name"):
+        if name not in dup["sketch"] or name not in dup["compute"]:
+            raise Unrecognised(name, "no longer defined in both command_sketch.py and command_compute.py")
+        if dup["sketch"][name] != dup["compute"][name]:
+            raise Unrecognised(name, "the copies in command_sketch.py and command_compute.py differ: decide which one the model follows")
+    # Python ComputeParameters.__init__ keyword defaults (the copy the sketch factory uses)
+    cc = ast.parse(py)
     cls = next((n for n in cc.body if isinstance(n, ast.ClassDef) and n.name == "ComputeParameters"), None)
     init = next((n for n in cls.body if isinstance(n, ast.FunctionDef) and n.name == "__init__"), None) if cls else None
     if init is None:
